@@ -3,6 +3,8 @@ package main
 // Symbolic executor over go/ast + go/types: paths, states, obligations.
 
 import (
+	"os"
+	"runtime/debug"
 	"fmt"
 	"go/ast"
 	"go/constant"
@@ -44,6 +46,7 @@ type Path struct {
 	cells   map[types.Object]string // locals whose address was taken: they live in a heap cell from then on
 	private map[string]bool // objects allocated by the unit whose reference has not left its locals yet (escape.go)
 	noPrivate bool          // a function literal was created: captured locals may leak any later reference
+	blank   map[string]bool // private objects created by an empty composite literal (&T{}): they reference nothing older
 }
 
 func NewPath() *Path {
@@ -72,6 +75,12 @@ func (p *Path) Clone() *Path {
 	q.events = append([]Event(nil), p.events...)
 	q.allocs = append([]string(nil), p.allocs...)
 	q.noPrivate = p.noPrivate
+	if len(p.blank) > 0 {
+		q.blank = make(map[string]bool, len(p.blank))
+		for k := range p.blank {
+			q.blank[k] = true
+		}
+	}
 	if len(p.private) > 0 {
 		q.private = make(map[string]bool, len(p.private))
 		for k := range p.private {
@@ -169,6 +178,8 @@ type Exec struct {
 	frame             *frameInfo // what the contract under verification allows the body to change (nil: no frame checking)
 	lastFieldWhole    map[string]bool // heap fields assigned as a whole (not only element-wise) in the last scanned loop body
 	lastWholeAssigned map[types.Object]bool // variables assigned as a whole (not only element-wise) in the last scanned loop body
+	decoderFn         *types.Func
+	decoderTarget     string // set by callFunc for a library decoder whose target is a blank private object (escape.go)
 	localOrd          map[types.Object]int // declaration ordinal of every local of the unit (locals.go)
 	loopOrdinals      map[ast.Node]int // static (source-order) ordinal of every loop of the unit under verification
 }
@@ -293,6 +304,9 @@ func (ex *Exec) heapWrite(p *Path, key string, ft types.Type, ref string, val st
 
 // havocMutableHeap forgets everything about mutable heap cells.
 func (ex *Exec) havocMutableHeap(p *Path) {
+	if os.Getenv("GOVC_DEBUG_PRIVATE") != "" && len(p.private) > 0 {
+		fmt.Fprintf(os.Stderr, "havocMutableHeap with private %v\n%s\n", p.private, debug.Stack())
+	}
 	for k := range p.heap {
 		if ex.isMutableKey(k) {
 			delete(p.heap, k)
@@ -1495,7 +1509,9 @@ func (ex *Exec) execRange(p *Path, st *ast.RangeStmt) []outcome {
 		ex.havocVars(it, modVars)
 		ex.advanceClock(it)
 		if heapW {
+			keepLoop := ex.keepPrivateLoop(it, st.Body)
 			ex.havocLoopHeap(it, fieldWrites, unknownWrites)
+			keepLoop()
 			ex.assumeFrame(it)
 			if ex.traceEvents {
 				ex.havocGhostBody(it, st.Body)
@@ -1571,7 +1587,9 @@ func (ex *Exec) execRange(p *Path, st *ast.RangeStmt) []outcome {
 		ex.havocVars(it, modVars)
 		ex.advanceClock(it)
 		if heapW {
+			keepLoop := ex.keepPrivateLoop(it, st.Body)
 			ex.havocLoopHeap(it, fieldWrites, unknownWrites)
+			keepLoop()
 			ex.assumeFrame(it)
 			if ex.traceEvents {
 				ex.havocGhostBody(it, st.Body)
@@ -1662,7 +1680,9 @@ func (ex *Exec) execFor(p *Path, st *ast.ForStmt) []outcome {
 	ex.havocVars(it, modVars)
 	ex.advanceClock(it)
 	if heapW {
+		keepLoop := ex.keepPrivateLoop(it, st.Body)
 		ex.havocLoopHeap(it, fieldWrites, unknownWrites)
+		keepLoop()
 		ex.assumeFrame(it)
 		if ex.traceEvents {
 			ex.havocGhostBody(it, st.Body)
